@@ -100,7 +100,16 @@ ClearCache ==
     /\ Log([op |-> "clear", i |-> sp.i, l |-> sp.l, res |-> NoRes])
     /\ UNCHANGED <<buf, res>>
 
+\* SliderPath::clone_from(&source): the path takes over the source's control points, length AND cache;
+\* the source is a path of input `inp` whose curve has (cached) or has not been computed yet
+CloneFrom(inp, cached) ==
+    /\ sp' = [i |-> inp[1], l |-> inp[2], cache |-> IF cached THEN inp ELSE (IF MutClears THEN NoInput ELSE sp.cache)]
+    /\ Log([op |-> IF cached THEN "clone_from_cached" ELSE "clone_from", i |-> inp[1], l |-> inp[2], res |-> NoRes])
+    /\ UNCHANGED <<buf, res>>
+CloneSources == (0..(IF NPool < 2 THEN NPool ELSE 2)) \X (0..(IF NLen < 1 THEN NLen ELSE 1))
+
 Step == \/ \E inp \in Inputs : Owned(inp) \/ Borrowed(inp)
+        \/ \E inp \in CloneSources : \E c \in BOOLEAN : CloneFrom(inp, c)
         \/ PathCurve \/ PathCurveBufs \/ PathBorrowed
         \/ \E j \in 0..NPool : MutPoints(j)
         \/ \E l \in 0..NLen : MutLen(l)
